@@ -154,7 +154,7 @@ impl Prop for C16 {
         Some((calcexpr::sheet(), tier.pick(40_000, 600_000)))
     }
     fn enumerate(&self, _tier: Tier) -> Vec<Case> {
-        vec![]
+        calcexpr::unit_triples()
     }
     fn prologue(&self, _cx: &mut Ctx) -> Vec<Failure> {
         calc::self_test()
@@ -165,6 +165,26 @@ impl Prop for C16 {
 
     fn check(&self, case: &Case, cx: &mut Ctx) -> Verdict {
         let p = calcexpr::print(case);
+        if case.crash_only {
+            // "no input makes simplification crash": every unit triple under clamp/min/max
+            cx.class("enumerated:unit-triple (crash-only)");
+            let mut single = Single::scss(p.scss.clone());
+            if case.compressed {
+                single.style = Style::Compressed;
+            }
+            let res = cx.compile(&single);
+            return match &res.outcome {
+                Outcome::Panic { at, msg } => fail(&panic_signature(at, msg), format!("panic at {}: {} for {}", at, msg, p.expr), &p, &res, json!({"at": at, "msg": msg})),
+                Outcome::Css(_) | Outcome::Error(_) => {
+                    cx.class(if res.outcome.is_err() { "unit-triple:error" } else { "unit-triple:css" });
+                    Verdict::Pass
+                }
+                other => {
+                    cx.inconclusive(&format!("abnormal:{}", other.short().split_whitespace().next().unwrap_or("?")));
+                    Verdict::Discard
+                }
+            };
+        }
 
         // ---- the oracle's own reading of the source text ----
         let mut vars = Vars::new();
